@@ -21,7 +21,7 @@ Theorem C01_hypothesis_needed :
 Proof. exact C01_without_dependency_hypothesis_refuted. Qed.
 Print Assumptions C01_hypothesis_needed.
 
-(* for flat rule sets (proofs/Frame.v: top-level names and field chains F.X, F.In.X - no selectors, methods or functions - constants, negation, parentheses, binary operators;
+(* for flat rule sets (proofs/Frame.v: top-level names, field chains and literal selectors F.X, F.In.X, F.Arr[2], F.M["k"] - no computed selectors, methods or functions - constants, negation, parentheses, binary operators;
    assignments and control built-ins) both hypotheses are theorems *)
 Theorem C01_flat : forall meth panics_inside mutating
   (meth_pure : forall fs f args ret fs', mutating f = false -> meth fs f args = Ok (ret, fs') -> fs' = fs)
